@@ -262,7 +262,14 @@ def np_value(ty, v, int8=False):
     return np.dtype(SRC_DTYPE["Int16b" if int8 else ty]).type(v)
 
 
-def np_array(ty, shape, vals, int8=False):
+def source_rep(name, shape, vals):
+    """how the SOURCE holds an array (same values, same DAP2 type): 0 native and contiguous, 1 big-endian, 2 a strided
+    view of a larger buffer, 3 big-endian in Fortran order.  A function of the case, so a replay rebuilds the same source."""
+    import zlib
+    return zlib.crc32(repr((name, tuple(shape), list(vals)[:6])).encode()) % 4
+
+
+def np_array(ty, shape, vals, int8=False, rep=0):
     if ty == "String":
         w = max([len(v) for v in vals] + [1])
         a = np.array([v.decode("ascii") for v in vals], dtype="U%d" % w)
@@ -272,7 +279,17 @@ def np_array(ty, shape, vals, int8=False):
         a = np.frombuffer(b"".join(struct.pack("<Q", v) for v in vals), "<f8").copy()
     else:
         a = np.array(vals, dtype=SRC_DTYPE["Int16b" if int8 else ty])
-    return a.reshape(shape)
+    a = a.reshape(shape)
+    if ty != "String" and rep in (1, 3) and a.dtype.itemsize > 1:
+        # bit-exact (astype would quieten signalling NaNs): swap the bytes and relabel the dtype
+        a = a.byteswap().view(a.dtype.newbyteorder(">"))
+    if rep == 2 and a.ndim:
+        big = np.zeros(a.shape[:-1] + (2 * a.shape[-1],), dtype=a.dtype)
+        big[..., ::2] = a
+        a = big[..., ::2]
+    if rep == 3 and a.ndim > 1:
+        a = np.asfortranarray(a)
+    return a
 
 
 def iter_rows(t, rows):
@@ -296,7 +313,7 @@ def build_var(t, d):
     if t[0] == "b":
         _, ty, shape, name, int8 = t
         if shape:
-            return BaseType(name, np_array(ty, shape, d, int8))
+            return BaseType(name, np_array(ty, shape, d, int8, rep=source_rep(name, shape, d)))
         if ty == "String":
             return BaseType(name, np.array(d.decode("ascii")))
         return BaseType(name, np.array(np_value(ty, d, int8)))
@@ -322,7 +339,10 @@ def build_var(t, d):
                 w = max([len(row[i]) for row in d for i, cc in enumerate(t[2]) if cc is c] + [1])
                 fields.append((c[3], "S%d" % w))
             else:
-                fields.append((c[3], SRC_DTYPE["Int16b" if c[4] else c[1]]))
+                dt = SRC_DTYPE["Int16b" if c[4] else c[1]]
+                if source_rep(c[3], (len(d),), [row[0] for row in d][:0]) % 2 and np.dtype(dt).itemsize > 1:
+                    dt = ">" + dt.lstrip("<")        # a record array whose fields are big-endian
+                fields.append((c[3], dt))
         arr = np.zeros((len(d),), dtype=fields)
         for r, row in enumerate(d):
             for c, x in zip(t[2], row):
